@@ -117,6 +117,9 @@ type Engine struct {
 	escaped   map[*ssa.Function]bool
 	entryOn   map[*ssa.Function]factSet
 	cellVers  map[*ssa.Alloc]*cellVersions
+	nnSucc    map[*ssa.Function][]int
+	ge0Depth  int
+	condBusy  map[*ssa.Phi]bool
 	keyDepth  int
 }
 
@@ -530,12 +533,23 @@ func (e *Engine) condFacts(v ssa.Value, pol bool) factSet {
 	case *ssa.Phi:
 		// boolean phi produced by && and ||: the value equals pol only along
 		// incoming edges whose operand can equal pol
+		if e.condBusy == nil {
+			e.condBusy = map[*ssa.Phi]bool{}
+		}
+		if e.condBusy[v] {
+			return fs // a loop-carried boolean that refers to itself: nothing to add
+		}
+		e.condBusy[v] = true
+		defer delete(e.condBusy, v)
 		var acc factSet
 		for i, op := range v.Edges {
 			if c, ok := op.(*ssa.Const); ok && c.Value != nil && c.Value.Kind() == constant.Bool {
 				if constant.BoolVal(c.Value) != pol {
 					continue
 				}
+			}
+			if op == ssa.Value(v) {
+				continue
 			}
 			fe := e.onEdge(v.Block().Preds[i], v.Block())
 			fe.add(e.condFacts(op, pol).list()...)
@@ -797,6 +811,12 @@ func (e *Engine) binopFacts(v *ssa.BinOp, pol bool, fs factSet) {
 						for _, f := range e.errSummary(callee) {
 							if g, ok := e.substFact(f, callee, c.Call.Args); ok {
 								fs.add(g)
+							}
+						}
+						// ... and the pointer results the callee never leaves nil when it reports success
+						for _, j := range e.nonNilOnSuccess(callee) {
+							if other := extractOf(c, j); other != nil {
+								fs.add(Fact{Kind: "nonnil", K: e.keyOf(other)})
 							}
 						}
 					}
@@ -1800,4 +1820,57 @@ func (e *Engine) enableEntryFacts(fn *ssa.Function) bool {
 	c := e.ctx(fn)
 	c.hold = map[*ssa.BasicBlock]factSet{}
 	return true
+}
+
+// nonNilOnSuccess: the pointer-typed results (other than the error) of a module function that are known to be
+// non-nil on every return whose error may be nil (read_elements: the closing token it found).
+func (e *Engine) nonNilOnSuccess(fn *ssa.Function) []int {
+	if e.nnSucc == nil {
+		e.nnSucc = map[*ssa.Function][]int{}
+	}
+	if v, ok := e.nnSucc[fn]; ok {
+		return v
+	}
+	e.nnSucc[fn] = nil
+	ei := hasErrorResult(fn)
+	if fn.Blocks == nil || ei < 1 || !strings.HasPrefix(fnPkgPath(fn), modPath) {
+		return nil
+	}
+	var out []int
+	for j := 0; j < ei; j++ {
+		if _, isPtr := fn.Signature.Results().At(j).Type().Underlying().(*types.Pointer); !isPtr {
+			continue
+		}
+		all, n := true, 0
+		for _, b := range fn.Blocks {
+			if len(b.Instrs) == 0 || b == fn.Recover {
+				continue
+			}
+			ret, ok := b.Instrs[len(b.Instrs)-1].(*ssa.Return)
+			if !ok || ei >= len(ret.Results) {
+				continue
+			}
+			ev := resolveRet(ret.Results[ei])
+			if !isNilConst(ev) {
+				if _, isCall := ev.(*ssa.Call); isCall || e.nonNilFact(ev, b) {
+					continue // a failure return
+				}
+				if _, isMI := ev.(*ssa.MakeInterface); isMI {
+					continue
+				}
+			}
+			n++
+			rv := resolveRet(ret.Results[j])
+			_, isAlloc := rv.(*ssa.Alloc)
+			_, isAddr := rv.(*ssa.FieldAddr)
+			if !isAlloc && !isAddr && !e.nonNilFact(rv, b) {
+				all = false
+			}
+		}
+		if all && n > 0 {
+			out = append(out, j)
+		}
+	}
+	e.nnSucc[fn] = out
+	return out
 }
